@@ -123,17 +123,43 @@ INVARIANTS Emit WellFormed Partition RejectNotReplica ReplicaOnlyReads Total Dec
 CHECK_DEADLOCK FALSE
 """
 
-POL_DEFAULT = {"lead": "none", "kwsep": "space", "cs": "lower", "trail": "none", "chan": "query"}
+POL_DEFAULT = {"lead": "none", "kwsep": "space", "cs": "lower", "trail": "none", "chan": "query",
+               "sess": "plain", "priv": "static"}
 POL_FIELDS = ["p", "kind", "lead", "kwsep", "cs", "trail", "lock", "lockopt", "hint", "probe", "chan", "intx",
-              "ro", "split", "csl", "expect"]
+              "ro", "split", "csl", "sess", "priv", "expect"]
 
 
 def pol_clean(c):
-    return {k: c[k] for k in POL_FIELDS if k in c}
+    d = {k: c[k] for k in POL_FIELDS if k in c}
+    d.setdefault("sess", "plain")      # cases recorded before the session-history dimensions existed
+    d.setdefault("priv", "static")
+    return d
 
 
 def _tag(f, v):
     return "%s=%s" % (f, str(v).lower() if isinstance(v, bool) else v)
+
+
+POL_SESS = {"plain": (), "after_read": ("earlier-read",), "ks": ("keep-session",), "ks_after_read": ("earlier-read", "keep-session")}
+
+
+def _deco_tags(c, deco):
+    tags = []
+    for f in sorted(deco):
+        if f == "sess":
+            tags += list(POL_SESS[c["sess"]])
+        elif c[f] != deco[f]:
+            tags.append(_tag(f, c[f]))
+    return tags
+
+
+def _deco_reset(c, d, deco, keep):
+    for f in deco:
+        if f == "sess":
+            kept = tuple(t for t in POL_SESS[c["sess"]] if t in keep)
+            d["sess"] = next(k for k, v in POL_SESS.items() if v == kept)
+        elif _tag(f, c[f]) not in keep:
+            d[f] = deco[f]
 
 
 def pol_view(family, c):
@@ -141,12 +167,11 @@ def pol_view(family, c):
     if family == "C21":
         deco = dict(POL_DEFAULT)
         deco.update({"intx": "no", "split": False})
-        feats = tuple(_tag(f, c[f]) for f in sorted(deco) if c[f] != deco[f])
-        return ("", ("kind=%s" % c["kind"],), feats)
+        return ("", ("kind=%s" % c["kind"],), tuple(_deco_tags(c, deco)))
     ctx = [c["kind"]]
     if c["ro"]:
         ctx.append("user=read-only")
-    feats = [_tag(f, c[f]) for f in sorted(POL_DEFAULT) if c[f] != POL_DEFAULT[f]]
+    feats = _deco_tags(c, POL_DEFAULT)
     clause = []                                     # lock clause / hint / probe present in the text
     lock = "lock=%s%s" % (c["lock"], ("/" + c["lockopt"]) if c["lockopt"] != "none" else "")
     if c["lock"] != "none":
@@ -180,13 +205,9 @@ def pol_project(family, c, keep_grounds, keep_feats):
     if family == "C21":
         deco = dict(POL_DEFAULT)
         deco.update({"intx": "no", "split": False})
-        for f in deco:
-            if _tag(f, c[f]) not in keep_feats:
-                d[f] = deco[f]
+        _deco_reset(c, d, deco, keep_feats)
         return d
-    for f in POL_DEFAULT:
-        if _tag(f, c[f]) not in keep_feats:
-            d[f] = POL_DEFAULT[f]
+    _deco_reset(c, d, POL_DEFAULT, keep_feats)
     keep = set(keep_grounds) | set(keep_feats)
     lock = "lock=%s%s" % (c["lock"], ("/" + c["lockopt"]) if c["lockopt"] != "none" else "")
     if c["lock"] != "none":
@@ -206,6 +227,11 @@ def pol_signature(family, ctx, grounds, feats):
     if family == "C21":
         return "C21 %s%s not rejected" % (" ".join(grounds), (" " + "+".join(feats)) if feats else "")
     g = " ".join(grounds)
+    if any(f in ("keep-session", "earlier-read", "priv=reloaded") for f in feats):
+        # the history of the session decides, not what obliges the statement to use the master
+        user = " ".join(x for x in ctx.split() if x.startswith("user="))
+        g = "in-transaction" if grounds[0].startswith("intx=") else "must-use-master"
+        return "C22 %s%s with %s on replica" % ((user + " ") if user else "", g, "+".join(feats))
     if feats:
         # a decoration defeats the detection of a lock clause whatever the clause is
         g = " ".join("lock" if x.startswith("lock=") else x for x in grounds)
@@ -240,6 +266,10 @@ def pol_check(ctx, family, cases, selftest=None):
                 flagged.add(r["case"])
                 continue
             c = pol_clean(r["obs"]["case"])
+            if (family == "C21") != (c["expect"] == "reject"):
+                other = ctx.cov.setdefault("deviations_of_the_sibling_property_seen", 0)
+                ctx.cov["deviations_of_the_sibling_property_seen"] = other + 1     # C21 judges rejection, C22 routing
+                continue
             c["_sql"] = r["obs"]["sql"]
             c["_gets"] = r["obs"]["gets"]
             devs.append(c)
@@ -304,14 +334,15 @@ UN_REF_FIELDS = ["cls", "cs", "qual", "bq", "glue", "pos", "alias"]
 
 
 def un_clean(c):
-    return {"kind": c["kind"], "dbset": c["dbset"], "sharded": c["sharded"],
+    sdb = c.get("sdb") or ("rule" if c.get("dbset") else "none")     # older recorded cases carry the boolean dbset
+    return {"kind": c["kind"], "sdb": sdb, "sharded": c["sharded"],
             "refs": [{k: r[k] for k in UN_REF_FIELDS} for r in c["refs"]]}
 
 
 def un_target(c):
     """index of the reference that resolves to a table with a routing rule (None if there is none)"""
     for i, r in enumerate(c["refs"]):
-        if r["cls"] != "plain" and (r["qual"] == "db" or (r["qual"] == "none" and c["dbset"])):
+        if r["cls"] != "plain" and (r["qual"] == "db" or (r["qual"] == "none" and c["sdb"] == "rule")):
             return i
     return None
 
@@ -324,14 +355,14 @@ def un_view(c):
         return (ctx, ("unsharded",), ())
     t = c["refs"][ti]
     feats = [_tag(f, t[f]) for f in sorted(UN_REF_DEFAULT) if t[f] != UN_REF_DEFAULT[f]
-             and not (f == "qual" and not c["dbset"])]       # without a session database the qualifier is not optional
+             and not (f == "qual" and c["sdb"] != "rule")]   # outside the rule database the qualifier is not optional
     for i, r in enumerate(c["refs"]):
         if i != ti:
             feats.append("ref%d" % i)
             if r["qual"] == "other":
                 feats.append("ref%d.qual=other" % i)
-    if not c["dbset"]:
-        feats.append("no-session-db")
+    if c["sdb"] != "rule":
+        feats.append("session-db=%s" % c["sdb"])
     return (ctx, ("class=%s" % t["cls"],), tuple(sorted(feats)))
 
 
@@ -341,12 +372,12 @@ def un_project(c, keep_grounds, keep_feats):
     ti = un_target(c)
     d = un_clean(c)
     t = dict(d["refs"][ti])
-    if "no-session-db" not in keep_feats:
-        d["dbset"] = True
+    if ("session-db=%s" % c["sdb"]) not in keep_feats:
+        d["sdb"] = "rule"
     for f in UN_REF_DEFAULT:
-        if f == "qual" and not d["dbset"]:
+        if f == "qual" and d["sdb"] != "rule":
             continue
-        if _tag(f, t[f]) not in keep_feats and not (f == "qual" and t[f] == "db" and not c["dbset"] and _tag(f, t[f]) in keep_feats):
+        if _tag(f, t[f]) not in keep_feats:
             t[f] = UN_REF_DEFAULT[f]
     refs = []
     for i, r in enumerate(d["refs"]):
@@ -354,7 +385,7 @@ def un_project(c, keep_grounds, keep_feats):
             refs.append(t)
         elif ("ref%d" % i) in keep_feats:
             r = dict(r)
-            if r["qual"] == "other" and d["dbset"] and ("ref%d.qual=other" % i) not in keep_feats:
+            if r["qual"] == "other" and d["sdb"] != "none" and ("ref%d.qual=other" % i) not in keep_feats:
                 r["qual"] = "none"
             refs.append(r)
     refs[0]["pos"] = "first"
@@ -384,7 +415,7 @@ def un_signature(pc, grounds, feats):
     t = pc["refs"][ti]
     parts = []
     for f in feats:
-        if f.startswith("ref") or f == "no-session-db":
+        if f.startswith("ref") or f.startswith("session-db="):
             continue
         parts.append(UN_COARSE.get(f, f))
     order = un_text_order(pc)
@@ -393,13 +424,12 @@ def un_signature(pc, grounds, feats):
     after = [pc["refs"][i] for i in order[k + 1:]]
     if ti > 0:
         parts.append("target@%s" % t["pos"])
-    if any(r["qual"] == "other" for r in before) and pc["dbset"]:
+    if any(r["qual"] == "other" for r in before) and pc["sdb"] == "rule":
         parts.append("after-otherdb-ref")
     later = sorted(set(r["pos"] for r in after))
     if later:
         parts.append("followed-by-" + "/".join(later))
-    if "no-session-db" in feats:
-        parts.append("no-session-db")
+    parts += [f for f in feats if f.startswith("session-db=")]
     parts = sorted(set(parts))
     fam = UN_FAMILY[pc["kind"]]
     if not parts:
